@@ -75,10 +75,8 @@ def rule_async(rep, tname, sm):
     return D
 
 
-def rule_fft(rep, sm):
-    facts = rep.ctx.facts
-    R = "R-C14-model"
-    # the filter: make_sincs(fft_size_in, 1, ..) placed at filter_t[0..fft_size_in] without shift
+def filter_placement(facts):
+    """the FFT filter: make_sincs(fft_size_in, 1, ..)[0] placed at filter_t[0..fft_size_in] tap for tap.  Returns (constructor, ok)."""
     cfn = facts.need_method("FftResampler", "new")
     ms = ir.calls(cfn["body"], "make_sincs")
     ok_ms = len(ms) == 1 and nbit(ms[0]["args"][0]) == "fft_size_in" and nbit(ms[0]["args"][1]) == "i:1"
@@ -91,7 +89,15 @@ def rule_fft(rep, sm):
                     r = y["r"]
                     for z in walk(r):
                         if z.get("k") == "index" and z["e"].get("k") == "index" and is_path(z["e"]["e"], "sinc") and nbit(z["e"]["i"]) == "i:0" and is_path(z["i"], names[0]):
-                            placed = True
+                            # tap n goes to element n: the loop runs over exactly <block>.iter_mut().enumerate().take(fft_size_in)
+                            ch_, b0_ = [], x["iter"]
+                            while b0_.get("k") == "mcall":
+                                ch_.append((b0_["name"], b0_["args"]))
+                                b0_ = b0_["recv"]
+                            ch_.reverse()
+                            if [c_[0] for c_ in ch_] == ["iter_mut", "enumerate", "take"] and b0_.get("k") == "path" and nbit(ch_[2][1][0]) == "fft_size_in" \
+                                    and y["l"].get("k") == "un" and is_path(y["l"]["e"], names[1]):
+                                placed = True
                     # zipped form: for (f, s) in filter_t.iter_mut().zip(sinc[0].iter()) { *f = *s / .. } - element n of the row goes to element n of the block
                     it_ = x["iter"]
                     if it_.get("k") == "mcall" and it_["name"] == "zip" and it_["args"]:
@@ -104,7 +110,14 @@ def rule_fft(rep, sm):
                         if src_.get("k") == "index" and is_path(src_["e"], "sinc") and nbit(src_["i"]) == "i:0" and dst_.get("k") == "path" \
                                 and y["l"].get("k") == "un" and is_path(y["l"]["e"], names[0]) and any(is_path(q, names[1]) for q in walk(y["r"])):
                             placed = True
-    rep.ob(R, "FftResampler/filter-placement", ok_ms and placed, "filter = make_sincs(fft_size_in, 1, ..)[0] copied tap-for-tap to the start of the FFT block (centre at fft_size_in/2)", loc(cfn))
+    return cfn, ok_ms and placed
+
+
+def rule_fft(rep, sm):
+    facts = rep.ctx.facts
+    R = "R-C14-model"
+    cfn, placed_ok = filter_placement(facts)
+    rep.ob(R, "FftResampler/filter-placement", placed_ok, "filter = make_sincs(fft_size_in, 1, ..)[0] copied tap-for-tap to the start of the FFT block (centre at fft_size_in/2)", loc(cfn))
     NP = sm["alg"].sym(sm["params"][0])
     F = sm["alg"].sym(sm["params"][1])
     centre = sincmodel.centre_real(sm).subs(F, 1)
